@@ -26,6 +26,13 @@ type Stream struct {
 	UseNumber             bool
 	DisallowUnknownFields bool
 	Option                *Option
+	readErr               error
+}
+
+// ReadError returns the error, other than io.EOF, that the underlying
+// reader has reported, if any.
+func (s *Stream) ReadError() error {
+	return s.readErr
 }
 
 func NewStream(r io.Reader) *Stream {
@@ -178,6 +185,9 @@ func (s *Stream) Token() (interface{}, error) {
 		}
 	}
 END:
+	if s.readErr != nil {
+		return nil, s.readErr
+	}
 	return nil, io.EOF
 }
 
@@ -224,7 +234,10 @@ func (s *Stream) read() bool {
 	if err == io.EOF {
 		s.allRead = true
 	} else if err != nil {
-		return false
+		// remember the failure: the decoders only see "no more data"
+		s.readErr = err
+		s.allRead = true
+		return n > 0
 	}
 	return true
 }
